@@ -70,6 +70,25 @@ def handle (j : Json) : Except String Json := do
       match flush { status, refs, queue, removed, added } with
       | .ok ws => pure (Json.mkObj [("ok", .arr (ws.map jsonOfWrite).toArray)])
       | .error e => pure (jsonOfErr e)
+  | "slots" =>
+      -- the same flush with the real queue bookkeeping (slots / _save_pos_); `top` = Entity.flush(obj)
+      let status ← listOf (fun s => do statusOfStr (← fromJson? s)) (← j.getObjVal? "status")
+      let refs ← listOf (listOf refOf) (← j.getObjVal? "refs")
+      let queue ← listOf optNat (← j.getObjVal? "queue")
+      let pos ← listOf optNat (← j.getObjVal? "pos")
+      let removed ← listOf pairOf (← j.getObjVal? "removed")
+      let added ← listOf pairOf (← j.getObjVal? "added")
+      let top ← optNat ((j.getObjVal? "top").toOption.getD .null)
+      let s0 : St := { status, out := removed.map (fun p => Write.unlink p.1 p.2) }
+      let qs : Slots := { queue, pos }
+      let r := match top with
+        | some x => saveTopS refs (fuelFor status) x (s0, qs)
+        | none => loopS refs (fuelFor status) queue.length 0 (s0, qs)
+      let jOpt (o : Option Nat) : Json := match o with | none => .null | some n => jNat n
+      match r with
+      | .ok (s, qs') => pure (Json.mkObj [("ok", .arr ((s.out ++ added.map (fun p => Write.link p.1 p.2)).map jsonOfWrite).toArray),
+                                          ("queue", .arr (qs'.queue.map jOpt).toArray), ("pos", .arr (qs'.pos.map jOpt).toArray)])
+      | .error e => pure (jsonOfErr e)
   | "accepts" =>
       -- run a statement list against the immediate-FK database model
       let refs ← listOf (listOf refOf) (← j.getObjVal? "refs")
